@@ -80,7 +80,7 @@ def grid(classes, reps, verboses):
                 for delta, best, loss in [(0.0, 0.5, 0.5 - 1e-10), (0.0, 1.0, 1.0 - 3e-9), (2.5e-9, 0.5, 0.5 - 3e-9), (0.0, 0.3, 0.3 - 1e-12),
                                           (0.0, 0.5 - 1e-10, 0.5)]:
                     for since in range(0, 3):
-                        yield cls, rep, 0, patience, delta, best, since, loss
+                        yield cls, rep, verboses[0], patience, delta, best, since, loss
     vals = [0.5, 1.0, 1.5]
     for cls in classes:
         for rep in reps:
@@ -102,7 +102,7 @@ def search(req):
                 if not ok:
                     return {"ok": True, "confirmed": True, **d}
         return {"ok": True, "confirmed": False}
-    for g in grid([req["cls"]], [req["rep"]], [0]):
+    for g in grid([req["cls"]], [req["rep"]], [req.get("verbose", 0)]):
         r = one_step(*g)
         if r is not None and not r[0]:
             return {"ok": True, "confirmed": True, **r[1]}
